@@ -139,6 +139,9 @@ def load_findings(path=FINDINGS_FILE):
     return out
 
 
+WALL_SLACK = 2.5
+
+
 class Run:
     """State of one check run (or one shard of it)."""
 
@@ -158,6 +161,11 @@ class Run:
         np.random.seed(sub)
         random.seed(sub)
         self.t0 = time.time()
+        self.c0 = time.process_time()
+        # budgets are counted in CPU seconds of this process so that a loaded machine does not
+        # shrink the workload (and turn a run inconclusive); the wall clock still bounds a run at
+        # WALL_SLACK x budget.  Monitors that wait for child processes (C20) use the wall clock.
+        self.clock = "cpu"
         self.budget = float(budget)
         self.evaluations = 0
         self.distinct = set()  # (tag, digest) of non-trivial cases
@@ -174,7 +182,10 @@ class Run:
 
     # ------------------------------------------------------------ budget
     def elapsed(self):
-        return time.time() - self.t0
+        wall = time.time() - self.t0
+        if self.clock == "wall":
+            return wall
+        return max(time.process_time() - self.c0, wall / WALL_SLACK)
 
     def time_left(self):
         return self.budget - self.elapsed()
@@ -503,6 +514,7 @@ def main(argv=None):
         with open(args.replay) as fh:
             rec = json.load(fh)
         run = Run(prop, rec.get("tier", tier), rec.get("seed", seed), budget=budget, replaying=True)
+        run.clock = getattr(mod, "CLOCK", "cpu")
         if hasattr(mod, "replay"):
             if _check_tree(run):
                 for w in rec.get("witnesses", []):
@@ -516,6 +528,7 @@ def main(argv=None):
     if args.shard:
         i, n = map(int, args.shard.split("/"))
         run = Run(prop, tier, seed, shard=(i, n), budget=budget)
+        run.clock = getattr(mod, "CLOCK", "cpu")
         run_shard(mod, run)
         with open(args.out, "wb") as fh:
             pickle.dump(run.export_state(), fh)
@@ -528,6 +541,7 @@ def _run_all(mod, prop, tier, seed, budget, t0, want_key=None, nshards=None):
     n = nshards or getattr(mod, "SHARDS", {}).get(tier, 1)
     n = max(1, min(int(n), int(os.environ.get("VERIF_MAX_SHARDS", 16))))
     run = Run(prop, tier, seed, shard=(0, n), budget=budget)
+    run.clock = getattr(mod, "CLOCK", "cpu")
     if n == 1:
         run_shard(mod, run)
     else:
